@@ -26,6 +26,10 @@ def variants(n, kmax, mlist=(1, 2)):
     return out
 
 
+def VARIANT_PRED(t, v):
+    return t.get('kind') == 'pairs' and t.get('n') == 1 and t.get('kl') == 1
+
+
 def plan(tier):
     t = []
     # pools are rebuilt inside the workers; a task = (n, m, kmax_left, kmax_right, slice of left index)
